@@ -104,15 +104,15 @@ theorem Inv.step_toClient (inv : Inv w net) (c : Nat) (beh : Behaviour V) :
         refine inv.answer_call ha0 hr0 hdest hdown ?_ (by simp) ?_
         · simp only [AnswerFits, hck]
         · intro a s; simp [ansResKey, Answer.isResult]
-      | run ifc md =>
+      | run ifc md fn =>
         simp only
-        have hiv : InvOK w net c (⟨some a0, r0.serial, r0.path, ifc.name, r0.member, r0.args⟩ : Invocation V) :=
-          ⟨a0, ha0, r0, hr0, hdest, ifc, md, hck, rfl⟩
+        have hiv : InvOK w net c (⟨some a0, r0.serial, r0.path, ifc.name, r0.member, r0.args, fn.id⟩ : Invocation V) :=
+          ⟨a0, ha0, r0, hr0, hdest, ifc, md, fn, hck, rfl⟩
         cases beh with
         | now res =>
           simp only
           rw [Net.upd_congr net c _ (fun cl => moved cl rest (net.cl c).exec
-            [(⟨some a0, r0.serial, r0.path, ifc.name, r0.member, r0.args⟩ : Invocation V)]
+            [(⟨some a0, r0.serial, r0.path, ifc.name, r0.member, r0.args, fn.id⟩ : Invocation V)]
             [(some a0, r0.serial, .result md.sigOut md.nret res)]
             [.reply (net.cl c).nextSerial r0.serial none (some a0) (replyOf w (.result md.sigOut md.nret res))]
             ((net.cl c).nextSerial + 1) (net.cl c).nextTok) (by simp [sendAnswer, moved])]
@@ -127,7 +127,7 @@ theorem Inv.step_toClient (inv : Inv w net) (c : Nat) (beh : Behaviour V) :
           rw [Net.upd_congr net c _ (fun cl => moved cl rest
             ((net.cl c).exec ++ [{ tok := (net.cl c).nextTok, sender := some a0, serial := r0.serial,
                                    sigOut := md.sigOut, nret := md.nret }])
-            [(⟨some a0, r0.serial, r0.path, ifc.name, r0.member, r0.args⟩ : Invocation V)] [] [] (net.cl c).nextSerial ((net.cl c).nextTok + 1)) (by simp [moved])]
+            [(⟨some a0, r0.serial, r0.path, ifc.name, r0.member, r0.args, fn.id⟩ : Invocation V)] [] [] (net.cl c).nextSerial ((net.cl c).nextTok + 1)) (by simp [moved])]
           apply inv.exporter_move
           · intro x hx; rw [hdown]; exact List.mem_cons_of_mem _ hx
           · intro e he
@@ -135,7 +135,7 @@ theorem Inv.step_toClient (inv : Inv w net) (c : Nat) (beh : Behaviour V) :
             rcases he with he | he
             · exact Or.inl he
             · right; rw [he]
-              exact ⟨a0, ha0, rfl, r0, hr0, rfl, hdest, ifc, md, hck, rfl, rfl⟩
+              exact ⟨a0, ha0, rfl, r0, hr0, rfl, hdest, ifc, md, fn, hck, rfl, rfl⟩
           · intro iv h; rw [List.mem_singleton] at h; rw [h]; exact hiv
           · intro x hx; simp at hx
           · intro m hm; simp at hm
@@ -178,7 +178,7 @@ theorem Inv.step_resolve (inv : Inv w net) (c : Nat) (tok : Nat) (res : Result V
     obtain ⟨e, rest⟩ := pr
     simp only
     obtain ⟨hmem, hsub⟩ := takeExec_mem ht
-    obtain ⟨a0, ha0, hsender, r0, hr0, hserial, hdest, ifc, md, hck, hso, hnr⟩ := inv.exec_ok c e hmem
+    obtain ⟨a0, ha0, hsender, r0, hr0, hserial, hdest, ifc, md, fn, hck, hso, hnr⟩ := inv.exec_ok c e hmem
     rw [Net.upd_congr net c _ (fun cl => moved cl (net.cl c).down rest []
       [(e.sender, e.serial, .result e.sigOut e.nret res)]
       [.reply (net.cl c).nextSerial e.serial none e.sender (replyOf w (.result e.sigOut e.nret res))]
